@@ -102,7 +102,28 @@ func (pb *predBuilder) key(v ssa.Value) string {
 			return k
 		}
 	}
+	// the index chosen by a select statement: a free variable of the rules
+	if ex, ok := v.(*ssa.Extract); ok && ex.Index == 0 {
+		if sel, ok := ex.Tuple.(*ssa.Select); ok {
+			return "selidx:" + sel.Name()
+		}
+	}
 	return canon(v)
+}
+
+// selAtomsOf lists the select-index atoms of f: rules that do not care which
+// select arm ran pass them to compareTable as integer atoms, so the comparison
+// with the spec must hold for every arm.
+func selAtomsOf(f formula) []string {
+	fb, fi := map[string]bool{}, map[string]bool{}
+	atomsOf(f, fb, fi)
+	var out []string
+	for _, a := range sortedKeys(fi) {
+		if strings.HasPrefix(a, "selidx:") {
+			out = append(out, a)
+		}
+	}
+	return out
 }
 
 func isIntegral(t types.Type) bool {
